@@ -48,7 +48,7 @@ theorem C19_bad_ca_bundle_fails_closed (c : Config) (hen : c.isEnabled = true) (
     `skipVerify = true` (client role: or relies on the host's system roots because no CA file is set). -/
 theorem C19_only_skip_relaxes (c : Config) (cred : Cred) (hbad : chainsToCA cred = false) :
     (∀ conf, serverTLS curVerifyMode c = .ok conf → serverAdmits conf cred = true → c.skipVerify = true) ∧
-    (∀ conf, clientTLS c = .ok conf → clientAdmits conf cred = true → c.skipVerify = true) := by
+    (∀ conf, clientTLS c = .ok conf → clientAdmits conf cred = true → c.skipVerify = true ∨ c.caFile = .unset) := by
   constructor
   · intro conf hb ha
     cases hs : c.skipVerify
@@ -61,7 +61,8 @@ theorem C19_only_skip_relaxes (c : Config) (cred : Cred) (hbad : chainsToCA cred
       cases hen : c.isEnabled <;> simp [hen, hs] at hb
       cases hsn : c.serverName <;> simp [hsn] at hb
       cases hf : c.caFile <;> simp [hf, caLoads] at hb <;> subst hb <;> simp [clientAdmits, hbad] at ha
-    · rfl
+      exact Or.inr rfl
+    · exact Or.inl rfl
 
 /-- The pinned tree's server mode (`RequireAnyClientCert`) admitted a self-signed client although
     verification was configured. (Fixed finding.) -/
